@@ -141,11 +141,14 @@ From DRX Require Import Spec.SpecFor Proofs.LingoNestFor.
    expressions as bounds, a local variable as counter): Director compiles them as an assignment, a loop on
    v <= b / v >= b and a last statement adding 1 / -1 (SpecFor.desugar); the decompiler recognises the pattern,
    restores the header with its variable, bounds and direction, drops the step and deletes the initial assignment
-   (SpecFor.final), to any nesting depth and mixed freely with if / if-else / repeat while.  Only  exit repeat  (covered at the level of the passes,
-   C03_passes_rebuild_any_nest, and by the bounded theorem) and  repeat with ... in <list>  are outside this theorem. *)
+   (SpecFor.final), to any nesting depth and mixed freely with if / if-else / repeat while and with  exit repeat
+   (SpecFor.QExit: out of a plain loop or out of a counting loop, from any place of the body; [exits_ok None]: every
+   exit jumps to the address after the back jump of its loop, none stands outside a loop).  Only
+   repeat with ... in <list>  is outside this theorem. *)
 Theorem C03_counting_loops_rebuilt_unbounded :
   forall en props q d off fuel r m,
-  wf_p any_cond en (desugar q) -> ok2 en q -> agrees_p en props m -> m_stack m = [] -> f_stmts (m_fn m) = [] ->
+  wf_p any_cond en (desugar q) -> exits_ok None (desugar q) -> ok2 en q ->
+  agrees_p en props m -> m_stack m = [] -> f_stmts (m_fn m) = [] ->
   code_at d off (code2 q ++ [b 1]) ->
   let pexit := off + zlen (code2 q) in
   let exit_st := Stmt pexit (Call "exit" pexit None true false false) in
@@ -161,9 +164,24 @@ Definition forq : prog2 :=
    (QFor false 1 (EInt 1) (EInt 9)
       (QStmt (qput 2) (QIf (c_lt 3) (QFor true 2 (EInt 9) (ELoc 1) (QStmt (qput 4) QNil) QNil) (QWhile (c_lt 5) (QStmt (qput 6) QNil) QNil)))
    (QFor false 3 (ELoc 0) (EBin Add (ELoc 0) (EInt 2)) (QStmt (qput 7) QNil) (QStmt (qput 8) QNil))).
-Example C03_forq_ok : wf_p any_cond flow_env (desugar forq) /\ ok2 flow_env forq.
+Example C03_forq_ok : wf_p any_cond flow_env (desugar forq) /\ exits_ok None (desugar forq) /\ ok2 flow_env forq.
 Proof. cbn. repeat split; try lia; try discriminate; intros; reflexivity. Qed.
 Example C03_forq_run :
   decompile_handler (code2 forq ++ [b 1])
   = Ok (final flow_env [] 0 forq ++ [let e := zlen (code2 forq) in Stmt e (Call "exit" e None true false false)]).
+Proof. vm_compute. reflexivity. Qed.
+
+(* exit repeat out of a counting loop: from a then part of its body (followed by a further statement and the step
+   assignment Director appends) and out of a plain loop nested in it *)
+Definition forx : prog2 :=
+  QFor false 1 (EInt 1) (EInt 9)
+    (QStmt (qput 2)
+      (QIf (c_lt 3) (QExit (3 + (2 + zlen (compile_p (PStmt (qput 4) (PStmt (for_step false 1) PNil))))) QNil)
+      (QStmt (qput 4) QNil)))
+    (QWhile (c_lt 5) (QStmt (qput 6) (QExit (3 + 2) QNil)) QNil).
+Example C03_forx_ok : wf_p any_cond flow_env (desugar forx) /\ exits_ok None (desugar forx) /\ ok2 flow_env forx.
+Proof. cbn. repeat split; try lia; try discriminate; try (intros; reflexivity); eexists; split; reflexivity. Qed.
+Example C03_forx_run :
+  decompile_handler (code2 forx ++ [b 1])
+  = Ok (final flow_env [] 0 forx ++ [let e := zlen (code2 forx) in Stmt e (Call "exit" e None true false false)]).
 Proof. vm_compute. reflexivity. Qed.
